@@ -2306,7 +2306,14 @@ class Transport(threading.Thread, ClosingContextManager):
             except Exception as e:
                 self._log(ERROR, "Unknown exception: " + str(e))
                 self._log(ERROR, util.tb_strings())
-                self.saved_exception = e
+                # Anything else is an internal error (typically triggered by
+                # malformed peer data); report it as the documented exception
+                # type, keeping the original as the cause.
+                wrapped = SSHException(
+                    "Internal error ({}): {}".format(type(e).__name__, e)
+                )
+                wrapped.__cause__ = e
+                self.saved_exception = wrapped
             _active_threads.remove(self)
             for chan in list(self._channels.values()):
                 chan._unlink()
